@@ -31,6 +31,15 @@ type Case struct {
 	// Cond: the classes are condition classes (define-condition / make-condition);
 	// "condition" = root classes name no parent, "error" = root classes name error.
 	Cond string `json:"cond,omitempty"`
+	// Redef2: a second redefinition (of the same or of another class) after the
+	// observations that follow the first one; only with Redef.Skew < 0.
+	Redef2 *Redef `json:"redef2,omitempty"`
+	// Failed: malformed redefinitions of every class and a make-instance with an
+	// unknown initarg are evaluated before every observation phase; they must
+	// signal an error and leave no trace.
+	Failed bool `json:"failed,omitempty"`
+	// Twice: one initarg per class is also supplied twice (the leftmost value counts).
+	Twice bool `json:"twice,omitempty"`
 }
 
 // allPerms lists the permutations of 0..n-1 in lexicographic order.
@@ -105,6 +114,11 @@ type genOpts struct {
 	types     bool // one slot name carries a :type
 	defaults  bool // :default-initargs (inherited ones have a listed finding)
 	shared    bool // a class-allocated slot (inheriting it has a listed finding)
+	redef2    bool // a second redefinition after the first (only when the first comes last)
+	failed    bool // failing forms before every observation phase
+	twice     bool // an initarg supplied twice (listed finding)
+	mixedK0   bool // with shared: another class defines k0 as a local slot
+	k0arg     bool // with shared: the class-allocated slot has an initarg
 }
 
 func genSlots(r *rand.Rand, class, gen int, nslots int, second map[int]bool) []Slot {
@@ -261,7 +275,46 @@ func genDAG(r *rand.Rand, o genOpts) Case {
 			c.Redef.Skew = r.IntN(n)
 		}
 	}
+	backToFirst := false
+	if o.redef2 && c.Redef != nil && c.Redef.Skew < 0 {
+		// the supers of the second definition are a reordered subset of the
+		// supers the class has at that time, so that the DAG stays acyclic
+		cur := append([]Class{}, c.Classes...)
+		cur[c.Redef.Class] = c.Redef.Def
+		k := c.Redef.Class
+		what := r.IntN(10)
+		if 6 <= what {
+			k = r.IntN(n)
+		}
+		var def Class
+		if what < 3 {
+			backToFirst = true // filled in below, once the first definition is complete
+		} else {
+			def.Supers = append([]int{}, cur[k].Supers...)
+			r.Shuffle(len(def.Supers), func(a, b int) { def.Supers[a], def.Supers[b] = def.Supers[b], def.Supers[a] })
+			if 0 < len(def.Supers) && r.IntN(3) == 0 {
+				def.Supers = def.Supers[1:]
+			}
+			def.Slots = genSlots(r, k, 2, nslots, second)
+		}
+		if def.Supers == nil {
+			def.Supers = []int{}
+		}
+		if def.Slots == nil {
+			def.Slots = []Slot{}
+		}
+		c.Redef2 = &Redef{Class: k, Def: def, Skew: -1}
+	}
+	c.Failed, c.Twice = o.failed, o.twice
+	if backToFirst {
+		c.Redef2 = nil
+	}
 	decorate(r, &c, o, nslots)
+	if backToFirst {
+		first := c.Classes[c.Redef.Class]
+		c.Redef2 = &Redef{Class: c.Redef.Class, Skew: -1, Def: Class{Supers: append([]int{}, first.Supers...),
+			Slots: append([]Slot{}, first.Slots...), Defaults: append([]Default(nil), first.Defaults...)}}
+	}
 	for k := range c.Classes {
 		if c.Classes[k].Supers == nil {
 			c.Classes[k].Supers = []int{}
@@ -285,6 +338,9 @@ func decorate(r *rand.Rand, c *Case, o genOpts, nslots int) {
 	}
 	if c.Redef != nil {
 		defs, gens, ids = append(defs, &c.Redef.Def), append(gens, 1), append(ids, c.Redef.Class)
+	}
+	if c.Redef2 != nil {
+		defs, gens, ids = append(defs, &c.Redef2.Def), append(gens, 2), append(ids, c.Redef2.Class)
 	}
 	if o.types {
 		// one slot name is typed, the same way in every definition; its
@@ -344,6 +400,32 @@ func decorate(r *rand.Rand, c *Case, o genOpts, nslots int) {
 		}
 		if c.Redef != nil && (c.Redef.Class == a) && r.IntN(2) == 0 {
 			c.Redef.Def.Slots = append(c.Redef.Def.Slots, sd)
+		}
+		if o.k0arg {
+			// the class-allocated slot has an initarg (in every form that defines it)
+			for _, d := range defs {
+				for k := range d.Slots {
+					if d.Slots[k].Name == "k0" {
+						d.Slots[k].Initargs = []string{"ik"}
+					}
+				}
+			}
+		}
+		if o.mixedK0 {
+			// another class defines k0 as an ordinary slot: below a class-allocated
+			// definition it makes k0 local, above one it is hidden by it (listed finding)
+			e := r.IntN(n)
+			has := false
+			for _, sd := range c.Classes[e].Slots {
+				has = has || sd.Name == "k0"
+			}
+			if !has {
+				loc := Slot{Name: "k0"}
+				if r.IntN(2) == 0 {
+					loc.Form, loc.Val = strconv.Itoa(70+e), strconv.Itoa(70+e)
+				}
+				c.Classes[e].Slots = append(c.Classes[e].Slots, loc)
+			}
 		}
 	}
 	// two-argument probe generic
@@ -523,6 +605,96 @@ func fixed() []Case {
 			out = append(out, c)
 		}
 	}
+	out = append(out, fixedHistories(chain, diamond, u, sl, acc)...)
+	return out
+}
+
+// fixedHistories: multi-step histories, failed operations, boundary shapes and
+// interactions of two features (added after the coverage review of the statement).
+func fixedHistories(chain, diamond []Class, u []string, sl func(string, string, ...string) Slot, acc func(Slot, bool, bool, bool) Slot) []Case {
+	var out []Case
+	shared := func(form string, ias ...string) Slot {
+		return Slot{Name: "k0", Shared: true, Form: form, Val: form, Initargs: ias}
+	}
+	local := func(form string) Slot { return Slot{Name: "k0", Form: form, Val: form} }
+	rootB := Class{Supers: []int{}, Slots: []Slot{sl("s0", "305"), acc(sl("s2", "327", "i2"), true, false, true)}}
+	// define / use / redefine / use / redefine / use
+	out = append(out, Case{Note: "chain3 redefine root, then back to its first definition", Classes: chain, Universe: u, Meth: []int{0, 2}, Meth2: [][2]int{{2, 2}, {1, 2}, {2, 0}}, MaxArgs: 5,
+		Redef: &Redef{Class: 2, Skew: -1, Def: rootB}, Redef2: &Redef{Class: 2, Skew: -1, Def: chain[2]}})
+	out = append(out, Case{Note: "chain3 redefine root twice", Classes: chain, Universe: u, Meth: []int{1, 2}, MethTop: true, MaxArgs: 5,
+		Redef:  &Redef{Class: 2, Skew: -1, Def: rootB},
+		Redef2: &Redef{Class: 2, Skew: -1, Def: Class{Supers: []int{}, Slots: []Slot{sl("s1", "319", "i1"), sl("s2", "", "i2")}}}})
+	out = append(out, Case{Note: "chain3 cut the middle from the root, then redefine the root", Classes: chain, Universe: u, Meth: []int{2}, Meth2: [][2]int{{2, 2}, {1, 2}, {2, 1}}, MaxArgs: 5,
+		Redef:  &Redef{Class: 1, Skew: -1, Def: Class{Supers: []int{}, Slots: []Slot{acc(sl("s1", "216", "i1"), true, false, false)}}},
+		Redef2: &Redef{Class: 2, Skew: -1, Def: rootB}})
+	out = append(out, Case{Note: "diamond5 redefine arm, then apex", Classes: diamond, Universe: u, Meth: []int{1, 3, 4}, Meth2: [][2]int{{3, 3}, {2, 4}, {4, 2}, {1, 2}}, MaxArgs: 5,
+		Redef:  &Redef{Class: 2, Skew: -1, Def: Class{Supers: []int{3, 4}, Slots: []Slot{sl("s1", "316", "i1")}}},
+		Redef2: &Redef{Class: 3, Skew: -1, Def: Class{Supers: []int{4}, Slots: []Slot{sl("s0", "405", "i0"), sl("s1", "415")}}}})
+	// a redefinition takes a slot and its initarg away from the subclasses, the next one brings them back
+	takes := []Class{
+		{Supers: []int{1}, Slots: []Slot{sl("s0", "100", "i0")}},
+		{Supers: []int{2}, Slots: []Slot{sl("s1", "", "i1")}},
+		{Supers: []int{}, Slots: []Slot{sl("s1", "311", "j1"), acc(sl("s2", "322", "i2"), true, false, false)}},
+	}
+	out = append(out, Case{Note: "redefinition takes an initarg away, the next brings it back", Classes: takes, Universe: u, Meth: []int{2}, MaxArgs: 5,
+		Redef:  &Redef{Class: 2, Skew: -1, Def: Class{Supers: []int{}, Slots: []Slot{sl("s1", "316")}}},
+		Redef2: &Redef{Class: 2, Skew: -1, Def: takes[2]}})
+	out = append(out, Case{Note: "redefinition mid-sequence takes an initarg away", Classes: takes, Universe: u, Meth: []int{1}, MaxArgs: 5,
+		Redef: &Redef{Class: 2, Skew: 1, Def: Class{Supers: []int{}, Slots: []Slot{sl("s1", "316")}}}})
+	// five levels of shadowing; initforms show through definitions that have none
+	chain5 := []Class{
+		{Supers: []int{1}, Slots: []Slot{sl("s0", "", "i0"), sl("s1", "111")}},
+		{Supers: []int{2}, Slots: []Slot{sl("s0", ""), sl("s1", "", "i1")}},
+		{Supers: []int{3}, Slots: []Slot{sl("s0", "300", "j0"), sl("s1", "")}},
+		{Supers: []int{4}, Slots: []Slot{sl("s0", ""), sl("s1", "411"), sl("s2", "")}},
+		{Supers: []int{}, Slots: []Slot{sl("s0", "500"), sl("s1", "511"), acc(sl("s2", "522", "i2"), true, false, true)}},
+	}
+	c5 := Case{Note: "chain5, five levels of shadowing, redefine the middle without its initform", Classes: chain5, Universe: u, Meth: []int{1, 4}, Meth2: [][2]int{{4, 4}, {2, 3}, {0, 4}}, MaxArgs: 3,
+		Redef: &Redef{Class: 2, Skew: -1, Def: Class{Supers: []int{3}, Slots: []Slot{sl("s0", "", "j0"), sl("s1", "316")}}}}
+	pr := rand.New(rand.NewPCG(2000, 5))
+	for seen := map[string]bool{}; len(c5.Perms) < 24; {
+		if ps := permString(pr.Perm(5)); !seen[ps] {
+			seen[ps] = true
+			c5.Perms = append(c5.Perms, ps)
+		}
+	}
+	out = append(out, c5)
+	// state left behind by failed operations
+	out = append(out, Case{Note: "failing forms: chain3 redefine root twice", Failed: true, Classes: chain, Universe: u, Meth: []int{0, 2}, MaxArgs: 5,
+		Redef: &Redef{Class: 2, Skew: -1, Def: rootB}, Redef2: &Redef{Class: 2, Skew: -1, Def: chain[2]}})
+	out = append(out, Case{Note: "failing forms: diamond5 redefine arm mid-sequence", Failed: true, Classes: diamond, Universe: u, Meth: []int{0, 3, 4}, Meth2: [][2]int{{3, 3}, {1, 4}}, MaxArgs: 5,
+		Redef: &Redef{Class: 1, Skew: 1, Def: Class{Supers: []int{4, 3}, Slots: []Slot{sl("s1", "216", "i1")}}}})
+	out = append(out, Case{Note: "failing forms: condition chain3", Failed: true, Cond: "condition", Classes: chain, Universe: u, Meth: []int{1, 2}, MaxArgs: 5})
+	// the same initarg twice (listed finding)
+	out = append(out, Case{Note: "initarg given twice", Twice: true, Classes: chain, Universe: u, Meth: []int{1}, MaxArgs: 5})
+	// a default initarg and an explicit other initarg of the same slot; a default for a shared initarg
+	out = append(out, Case{Note: "default initarg against an explicit other initarg of the slot", Universe: u, Meth: []int{1}, MaxArgs: 5, Classes: []Class{
+		{Supers: []int{1}, Slots: []Slot{sl("s0", "100", "i0"), sl("s2", "122", "i2", "i1")}, Defaults: []Default{{"i1", "8001", "8001"}}},
+		{Supers: []int{}, Slots: []Slot{sl("s0", "200", "j0"), sl("s1", "211", "i1")}, Defaults: []Default{{"j0", "8100", "8100"}}},
+	}})
+	// allocation of k0 decided by the most specific definition; an initarg on the class slot
+	out = append(out, Case{Note: "class slot with an initarg; local definitions below and above a class-allocated one", Universe: u, Meth: []int{1, 3}, MaxArgs: 5, Classes: []Class{
+		{Supers: []int{1}, Slots: []Slot{sl("s0", "100", "i0"), local("")}},
+		{Supers: []int{}, Slots: []Slot{shared("51", "ik"), sl("s1", "211")}},
+		{Supers: []int{3}, Slots: []Slot{shared("")}},
+		{Supers: []int{}, Slots: []Slot{local("73"), sl("s0", "400")}},
+		{Supers: []int{1}, Slots: []Slot{sl("s1", "511", "i1")}},
+	}})
+	// class slot x redefinition: new initform and initarg, then the slot is taken away
+	owner := []Class{
+		{Supers: []int{1}, Slots: []Slot{sl("s0", "100", "i0")}},
+		{Supers: []int{2}, Slots: []Slot{sl("s1", "211")}},
+		{Supers: []int{}, Slots: []Slot{shared("52"), sl("s2", "322", "i2")}},
+		{Supers: []int{2}, Slots: []Slot{sl("s1", "411")}},
+	}
+	out = append(out, Case{Note: "class slot: owner redefined, then the slot is taken away", Classes: owner, Universe: u, Meth: []int{2}, MaxArgs: 5,
+		Redef:  &Redef{Class: 2, Skew: -1, Def: Class{Supers: []int{}, Slots: []Slot{shared("57", "ik"), sl("s2", "327", "i2")}}},
+		Redef2: &Redef{Class: 2, Skew: -1, Def: Class{Supers: []int{}, Slots: []Slot{sl("s2", "329", "i2")}}}})
+	out = append(out, Case{Note: "class slot: a redefined middle class takes the slot over, then makes it local", Classes: owner, Universe: u, Meth: []int{1}, MaxArgs: 5,
+		Redef:  &Redef{Class: 1, Skew: -1, Def: Class{Supers: []int{2}, Slots: []Slot{sl("s1", "216"), shared("")}}},
+		Redef2: &Redef{Class: 1, Skew: -1, Def: Class{Supers: []int{2}, Slots: []Slot{sl("s1", "218"), local("75")}}}})
+	out = append(out, Case{Note: "class slot: owner redefined mid-sequence without the slot", Classes: owner, Universe: u, Meth: []int{0}, MaxArgs: 5,
+		Redef: &Redef{Class: 2, Skew: 1, Def: Class{Supers: []int{}, Slots: []Slot{sl("s2", "327", "i2")}}}})
 	return out
 }
 
@@ -548,7 +720,7 @@ func gen(r *rand.Rand, i int, tier string) Case {
 	o.redefMid = o.redef && r.IntN(100) < 30
 	// a slot with two initargs (supplying both has a listed finding) is kept to a minority
 	switch r.IntN(20) {
-	case 0, 1:
+	case 0, 1, 5:
 		o.sharedArg = true
 	case 2:
 		o.nilForm = true
@@ -562,6 +734,11 @@ func gen(r *rand.Rand, i int, tier string) Case {
 	case 5, 6, 7, 8:
 		o.shared = true
 	}
+	o.redef2 = o.redef && !o.redefMid && r.IntN(100) < 30
+	o.failed = r.IntN(100) < 20
+	o.twice = r.IntN(100) < 8
+	o.mixedK0 = o.shared && r.IntN(100) < 30
+	o.k0arg = o.shared && r.IntN(100) < 40
 	c := genDAG(r, o)
 	switch r.IntN(20) {
 	case 0, 1:
